@@ -45,8 +45,12 @@ class WindowManager:
         :returns: Nothing.
         :rtype: ``None``
         """
+        # A window that a SETTINGS_INITIAL_WINDOW_SIZE reduction has already
+        # made negative is legal (RFC 7540 Section 6.9.2), and frames with no
+        # flow-controlled octets may be sent whatever the window is (Section
+        # 6.9.1): only octets that were actually received can overrun it.
         self.current_window_size -= size
-        if self.current_window_size < 0:
+        if size and self.current_window_size < 0:
             raise FlowControlError("Flow control window shrunk below 0")
 
     def window_opened(self, size):
